@@ -30,6 +30,42 @@ var props = map[string]propCfg{
 		},
 		comps: []string{"real: core.Spec.Compile/Step, match.Match, interpreters/ecmascript (goja) - instrumented copies with the map-order seam", "reference: /verif/ref machine + mini-matcher (written from README 'Processing', doc/by-example.md, Spec field docs)", "injected: action/guard failures (throw, bad return, unserialisable emit), map iteration orders"},
 	},
+	"C05": {
+		level: "exploration",
+		rule: "each run: one generated specification, start state and history of 1-8 unique messages; a simulated host delivers it in tape-chosen consecutive batches with step limits 0-40 and breakpoint predicates, resuming from the returned state with exactly Remaining; then the same history all at once; distinct = distinct (batch size, limit, breakpoint, stop reason) sequences; non-trivial = at least two Walk calls",
+		parts: []part{{name: "", engine: "core", quick: 6000, thorough: 400000}},
+		comps: []string{"real: core.Spec.Compile/Step/Walk, match.Match, interpreters/ecmascript (goja) - instrumented copies with the map-order seam", "reference: /verif/ref machine + mini-matcher (written from the documentation)", "injected: action/guard failures (throw, bad return, unserialisable emit, null, stub interpreter results), map iteration orders"},
+	},
+	"C06": {
+		level: "exploration",
+		rule: "each run: one generated specification, a shared list of message objects and 1-3 states (fan-out); per state a Step or Walk call, deep snapshots of state/messages/control/props/branch patterns before and after, aliasing of returned bindings, then the identical call again (retry); distinct = distinct specification + outcome shapes",
+		parts: []part{{name: "", engine: "core", quick: 6000, thorough: 400000}},
+		comps: []string{"real: core.Spec.Compile/Step/Walk, match.Match, interpreters/ecmascript (goja) - instrumented copies with the map-order seam", "reference: /verif/ref machine + mini-matcher (written from the documentation)", "injected: action/guard failures (throw, bad return, unserialisable emit, null, stub interpreter results), map iteration orders"},
+	},
+	"C07": {
+		level: "fault_enumeration",
+		rule: "process: per generated program the product {every node, unknown node, error node} x {nil, '!'-carrying, generated bindings} x {no, map, scalar message} x {nil, given control} x {Step, Walk} is enumerated under a panic trap, action/guard failure kinds are part of the program; load: a generated document gets one of 19 structural faults and is loaded through encoding/json, yaml.v2 and jsccast/yaml, compiled, and walked; distinct = distinct programs / (fault, outcome) pairs",
+		parts: []part{{name: "process", engine: "core", quick: 1200, thorough: 60000}, {name: "load", engine: "core", quick: 3000, thorough: 200000}},
+		comps: []string{"real: core.Spec.Compile/Step/Walk, match.Match, interpreters/ecmascript (goja) - instrumented copies with the map-order seam", "reference: /verif/ref machine + mini-matcher (written from the documentation)", "injected: action/guard failures (throw, bad return, unserialisable emit, null, stub interpreter results), map iteration orders"},
+	},
+	"C08": {
+		level: "fault_enumeration",
+		rule: "per run: (A) a generated program and history checked stride by stride against the reference's completed executions; (B) for an action with n<=4 emits, failure after the k-th emit for every k in [0,n] x {throw, bad return, unserialisable emit}, as first or second action of a three-message walk, under a tape-chosen error-routing mode, with or without an emitting guard; distinct = distinct (program, n, mode, position)",
+		parts: []part{{name: "core", engine: "core", quick: 2500, thorough: 150000}},
+		comps: []string{"real: core.Spec.Compile/Step/Walk, match.Match, interpreters/ecmascript (goja) - instrumented copies with the map-order seam", "reference: /verif/ref machine + mini-matcher (written from the documentation)", "injected: action/guard failures (throw, bad return, unserialisable emit, null, stub interpreter results), map iteration orders"},
+	},
+	"C09": {
+		level: "fault_enumeration",
+		rule: "per run: a generated program whose later patterns inspect values produced by earlier actions, a history of 1-6 messages; twin A keeps the state in memory, twin B writes it as JSON and reads it back before message i, for every i (enumerated) and for one tape-chosen subset; per message (node, bindings, emitted) must agree; distinct = distinct (program, nodes visited)",
+		parts: []part{{name: "", engine: "core", quick: 4000, thorough: 300000}},
+		comps: []string{"real: core.Spec.Compile/Step/Walk, match.Match, interpreters/ecmascript (goja) - instrumented copies with the map-order seam", "reference: /verif/ref machine + mini-matcher (written from the documentation)", "injected: action/guard failures (throw, bad return, unserialisable emit, null, stub interpreter results), map iteration orders"},
+	},
+	"C18": {
+		level: "exploration",
+		rule: "each run: a generated program (native, ECMAScript and stub actions; guards that reject or fail), a start state carrying permanent bindings, a history of 1-6 messages; on every stride that moved, each '!' binding of From must be in To with an equal value; distinct = distinct stride-outcome sequences; non-trivial = at least one stride checked",
+		parts: []part{{name: "", engine: "core", quick: 6000, thorough: 400000}},
+		comps: []string{"real: core.Spec.Compile/Step/Walk, match.Match, interpreters/ecmascript (goja) - instrumented copies with the map-order seam", "reference: /verif/ref machine + mini-matcher (written from the documentation)", "injected: action/guard failures (throw, bad return, unserialisable emit, null, stub interpreter results), map iteration orders"},
+	},
 	"C17": {
 		level: "exploration",
 		rule: "each run: a tape-generated plan of make/cancel/sleep requests over <=3 timer ids issued by 1-3 requester tasks plus handler-issued requests, executed on the real timers code under the serial scheduler with the simulated clock; distinct = distinct (operation history, schedule) event hashes; non-trivial = at least one timer fired or was cancelled and at least two tasks interleaved",
